@@ -152,6 +152,7 @@ func runSched(run *report.Run) {
 	bound := 2
 	budget := 40 * time.Second
 	if run.Thorough() {
+		bound = 3
 		budget = 8 * time.Minute
 	}
 	start := time.Now()
